@@ -82,6 +82,33 @@ class World:
             asyncio.set_event_loop(None)
 
 
+def run_sync(world, fn):
+    """Run fn() (synchronous code that calls asyncio.run itself, e.g. cli.main) with an event-loop policy
+    that hands out the world's SimLoop.  Returns fn's result; exceptions propagate."""
+    from .loop import SimPolicy
+    old = asyncio.get_event_loop_policy()
+    handed = []
+
+    def factory():
+        if handed:
+            raise RuntimeError("second event loop requested in one run")
+        handed.append(True)
+        return world.loop
+    asyncio.set_event_loop_policy(SimPolicy(factory))
+    try:
+        with world.seams:
+            try:
+                return fn()
+            finally:
+                world.loop.shutdown()
+    finally:
+        asyncio.set_event_loop_policy(old)
+        try:
+            asyncio.set_event_loop(None)
+        except Exception:
+            pass
+
+
 class Outcome:
     __slots__ = ("kind", "value", "exc", "exc_type", "t0", "t1")
 
